@@ -55,3 +55,25 @@ pub fn add_on_empty(
 	}
 	Ok((sizes, full))
 }
+
+/// Applies the generated batches, in order, to ONE fresh memtable of `capacity`. Per batch:
+/// whether it was accepted (`false` = `ArenaFull`) and the arena size after the call.
+pub fn add_sequence(
+	capacity: usize,
+	batches: &[Vec<(usize, usize)>],
+) -> Result<Vec<(bool, usize)>, String> {
+	let mem = MemTable::new(capacity);
+	let mut out = Vec::new();
+	let mut seq = 1u64;
+	for entries in batches {
+		let mut batch = batch_of(entries)?;
+		batch.set_starting_seq_num(seq);
+		seq += entries.len() as u64;
+		match mem.add(&batch) {
+			Ok(()) => out.push((true, mem.size())),
+			Err(crate::error::Error::ArenaFull) => out.push((false, mem.size())),
+			Err(e) => return Err(e.to_string()),
+		}
+	}
+	Ok(out)
+}
